@@ -62,3 +62,243 @@ Proof.
   destruct (stack_replacing_spec N fuel F cap cs' wl' t data' t' HN Hcap Hr' Hf2 HF2 Ha) as (b2&s2&E2&D2).
   exists b1, s1, b2, s2. repeat split; auto. congruence.
 Qed.
+
+(* ================================================================================================ *)
+(* The complete reader stacks of omniparser, over ANY well-behaved base reader (the raw source    *)
+(* for utf-8, or the charmap decoder over it for iso-8859-1 / windows-1252).                       *)
+(* ================================================================================================ *)
+From OV Require Import Proofs.ChunkScan Proofs.ChunkFind Proofs.ChunkDecode.
+
+Section Stacks.
+  Variable St : Type.
+  Variable sread : St -> nat -> rres * St.
+
+  (* fixed-length formats: StripBOM, then ByteReadLine on the same bufio.Reader *)
+  Definition bom_lines_rd (N gas fuel : nat) (x : St) : outcome (ioerr + (list bytes * ioerr)) :=
+    match strip_bom St sread N x with
+    | Ok (inl e, _) => Ok (inl e)
+    | Ok (inr b, x') => match read_lines St sread N gas fuel b x' with
+                        | Ok r => Ok (inr r)
+                        | Panic p => Panic p
+                        | OutOfFuel => OutOfFuel
+                        end
+    | Panic p => Panic p
+    | OutOfFuel => OutOfFuel
+    end.
+
+  (* EDI: StripBOM, bufio.Reader.Read, optionally CR and LF removal, then the delimiter scanner
+     with its initial buffer of buflen bytes *)
+  Definition edi_tokens_rd (ignore_crlf : bool) (N buflen : nat) (delim esc : bytes)
+             (gasB gas fuel : nat) (x : St) : outcome (ioerr + (list bytes * option ioerr)) :=
+    match strip_bom St sread N x with
+    | Ok (inl e, _) => Ok (inl e)
+    | Ok (inr b, x') =>
+        let find := byte_index_with_esc delim esc in
+        let r0 := b_read St sread N in
+        match (if ignore_crlf
+               then scan_all _ (brr_rd NL [] 4096 _ (brr_rd CR [] 4096 _ r0 gasB) gasB) find (length delim) true false
+                             gas fuel (mkScan 0 [] buflen None) (brr_init, (brr_init, (b, x')))
+               else scan_all _ r0 find (length delim) true false gas fuel (mkScan 0 [] buflen None) (b, x')) with
+        | Ok r => Ok (inr r)
+        | Panic p => Panic p
+        | OutOfFuel => OutOfFuel
+        end
+    | Panic p => Panic p
+    | OutOfFuel => OutOfFuel
+    end.
+
+  Definition a_edi_tokens (ignore_crlf : bool) (delim esc : bytes) (fuel : nat) (a : astream)
+    : outcome (ioerr + (list bytes * option ioerr)) :=
+    match a_strip_bom a with
+    | inl e => Ok (inl e)
+    | inr (data', t') =>
+        let d2 := if ignore_crlf then a_replace1 NL [] (a_replace1 CR [] data') else data' in
+        match a_scan_all (byte_index_with_esc delim esc) (length delim) true false fuel d2 t' with
+        | Ok r => Ok (inr r)
+        | Panic p => Panic p
+        | OutOfFuel => OutOfFuel
+        end
+    end.
+
+  Variable Rep : St -> bytes -> tail -> Prop.
+  Variable wt : St -> nat.
+  Variable lead : St -> nat.
+  Hypothesis Hok : reader_ok St sread Rep wt lead.
+
+  Theorem bom_lines_rd_spec N gas fuel x data t res :
+    4 <= N -> Rep x data t -> wt x + 1 < gas ->
+    a_bom_lines N fuel (data, t) = Ok res -> bom_lines_rd N gas fuel x = Ok res.
+  Proof.
+    intros HN HR Hg Ha. unfold bom_lines_rd, a_bom_lines in *.
+    pose proof (strip_bom_spec St sread Rep wt lead Hok N HN x data t HR) as H.
+    destruct (a_strip_bom (data, t)) as [e|a'].
+    - destruct H as (x'&->). exact Ha.
+    - destruct H as (b&x'&->&HBR&Hw).
+      destruct (a_read_lines N fuel a') as [r| |] eqn:E; try discriminate.
+      rewrite (read_lines_spec St sread Rep wt lead Hok N HN gas fuel b x' a' r HBR E); [exact Ha|lia].
+  Qed.
+
+  Lemma a_scan_all_tail find dlen incl eofd fuel : forall d t t',
+    scan_terr t = scan_terr t' ->
+    a_scan_all find dlen incl eofd fuel d t = a_scan_all find dlen incl eofd fuel d t'.
+  Proof.
+    induction fuel as [|k IH]; intros d t t' H; [reflexivity|]. cbn [a_scan_all].
+    destruct (find (firstn MaxScanTokenSize d)) as [i|].
+    - rewrite (IH (skipn (i + dlen) d) t t' H). reflexivity.
+    - rewrite (IH [] t t' H), H. reflexivity.
+  Qed.
+
+  Lemma scan_terr_latch t : scan_terr (latch t) = scan_terr t.
+  Proof. unfold scan_terr. rewrite latch_err. reflexivity. Qed.
+
+  Theorem edi_tokens_rd_spec crlf N buflen delim esc gasB gas fuel x data t res :
+    4 <= N -> buflen <= MaxScanTokenSize -> full_rune delim = true ->
+    Rep x data t ->
+    12 * (N + wt x) + 6 < gasB -> 12 * (N + wt x) + 6 < gas ->
+    a_edi_tokens crlf delim esc fuel (data, t) = Ok res ->
+    edi_tokens_rd crlf N buflen delim esc gasB gas fuel x = Ok res.
+  Proof.
+    intros HN Hbl Hdelim HR HgB Hg Ha. unfold edi_tokens_rd, a_edi_tokens in *.
+    pose proof (strip_bom_spec St sread Rep wt lead Hok N HN x data t HR) as H.
+    destruct (a_strip_bom (data, t)) as [e|[data' t']].
+    - destruct H as (x'&->). exact Ha.
+    - destruct H as (b&x'&->&HBR&Hw).
+      destruct (find_esc_ok delim esc Hdelim) as [Hfb Hfe].
+      assert (Hdl : 1 <= length delim).
+      { destruct delim; [discriminate Hdelim|simpl; lia]. }
+      pose proof (bufio_read_reader_ok St sread Rep wt lead Hok N HN) as Hok0.
+      assert (HdN : length (b_data b) <= N) by (destruct HBR as [A _]; exact A).
+      assert (Hbw : bufrd_wt St wt (b, x') <= 3 * N + 3 * wt x + 1).
+      { unfold bufrd_wt. cbn [fst snd]. destruct (b_err b); lia. }
+      destruct crlf.
+      + pose proof (brr_reader_ok CR [] ltac:(simpl; lia) 4096 ltac:(lia) _ _ _ _ _ Hok0 gasB) as Hok1.
+        pose proof (brr_reader_ok NL [] ltac:(simpl; lia) 4096 ltac:(lia) _ _ _ _ _ Hok1 gasB) as Hok2.
+        destruct (a_scan_all _ _ _ _ fuel (a_replace1 NL [] (a_replace1 CR [] data')) t') as [r| |] eqn:E;
+          try discriminate.
+        rewrite (a_scan_all_tail _ _ _ _ fuel _ t' (latch (latch t'))) in E
+          by (rewrite !scan_terr_latch; reflexivity).
+        rewrite (scan_all_spec _ _ _ _ _ Hok2 _ _ true false Hdl Hfb Hfe gas fuel
+                   (mkScan 0 [] buflen None) (brr_init, (brr_init, (b, x')))
+                   (a_replace1 NL [] (a_replace1 CR [] data')) (latch (latch t')) r); [exact Ha| | |exact E].
+        * unfold SR. cbn [s_start s_data s_buflen s_err length]. split; [lia|]. split; [exact Hbl|].
+          eexists. split; [|reflexivity].
+          split.
+          -- unfold brr_rep. cbn [brr_init r_buf r_buf0 r_err length]. split; [reflexivity|]. split; [lia|].
+             exists (a_replace1 CR [] data'), (latch t'). split; [reflexivity|]. split; [|reflexivity].
+             split.
+             ++ unfold brr_rep. cbn [brr_init r_buf r_buf0 r_err length]. split; [reflexivity|]. split; [lia|].
+                exists data', t'. split; [reflexivity|]. split; [exact HBR|reflexivity].
+             ++ unfold brr_m. cbn [fst snd brr_init r_err]. lia.
+          -- unfold brr_m, brr_wt. cbn [fst snd brr_init r_err r_buf length]. lia.
+        * unfold sm, brr_wt. cbn [fst snd s_err brr_init r_buf length]. lia.
+      + destruct (a_scan_all _ _ _ _ fuel data' t') as [r| |] eqn:E; try discriminate.
+        rewrite (scan_all_spec _ _ _ _ _ Hok0 _ _ true false Hdl Hfb Hfe gas fuel
+                   (mkScan 0 [] buflen None) (b, x') data' t' r); [exact Ha| | |exact E].
+        * unfold SR. cbn [s_start s_data s_buflen s_err length]. split; [lia|]. split; [exact Hbl|].
+          exists data'. split; [exact HBR|reflexivity].
+        * unfold sm. cbn [fst snd s_err]. lia.
+  Qed.
+End Stacks.
+
+(* ---- instances: utf-8 (the source itself) and a charmap encoding (decoder over the source) ---- *)
+Definition src0 (cs : list bytes) (wl : bool) (t : tail) : source := mkSrc cs wl t.
+
+Theorem edi_stack_spec crlf N buflen delim esc gasB gas fuel cs wl t res :
+  4 <= N -> buflen <= MaxScanTokenSize -> full_rune delim = true -> runs_ok cs = true ->
+  12 * (N + weight cs) + 6 < gasB -> 12 * (N + weight cs) + 6 < gas ->
+  a_edi_tokens crlf delim esc fuel (concat cs, t) = Ok res ->
+  edi_tokens_rd source io_read crlf N buflen delim esc gasB gas fuel (mkSrc cs wl t) = Ok res.
+Proof.
+  intros HN Hbl Hd Hr HgB Hg Ha.
+  apply (edi_tokens_rd_spec source io_read src_rep src_wt src_lead source_reader_ok crlf N buflen delim esc
+           gasB gas fuel (mkSrc cs wl t) (concat cs) t res HN Hbl Hd (src_rep_mk cs wl t Hr)); auto.
+Qed.
+
+Section Encoded.
+  Variable cp : byte -> bytes.
+  Hypothesis Hcp : forall c, 1 <= length (cp c) <= 3.
+  Variable fuelD : nat.
+
+  Notation drd := (dec_rd cp 4096 source io_read fuelD).
+  Notation dok := (dec_reader_ok cp Hcp 4096 ltac:(lia) source io_read src_rep src_wt src_lead source_reader_ok fuelD).
+
+  Lemma dec_rep_init cs wl t :
+    runs_ok cs = true -> 2 * weight cs + 4 < fuelD ->
+    dec_rep_f cp 4096 source src_rep src_wt fuelD (dec_init, mkSrc cs wl t) (a_decode cp (concat cs)) (latch t).
+  Proof.
+    intros Hr Hf. split.
+    - unfold dec_rep. cbn [dec_init d_dst d_src d_err d_complete length]. split; [lia|]. split; [lia|].
+      exists (concat cs), t. repeat split; auto.
+    - unfold dec_M, src_wt. cbn. lia.
+  Qed.
+
+  (* WrapEncoding -> StripBOM -> line reader *)
+  Theorem lines_stack_enc_spec N gas fuel cs wl t res :
+    4 <= N -> runs_ok cs = true -> 2 * weight cs + 4 < fuelD -> 6 * weight cs + 1 < gas ->
+    a_bom_lines N fuel (a_decode cp (concat cs), latch t) = Ok res ->
+    bom_lines_rd _ drd N gas fuel (dec_init, mkSrc cs wl t) = Ok res.
+  Proof.
+    intros HN Hr HfD Hg Ha.
+    apply (bom_lines_rd_spec _ _ _ _ _ dok N gas fuel _ _ _ res HN (dec_rep_init cs wl t Hr HfD)); [|exact Ha].
+    unfold dec_wt, src_wt. cbn. lia.
+  Qed.
+
+  (* WrapEncoding -> StripBOM -> Read -> [CR/LF removal] -> scanner *)
+  Theorem edi_stack_enc_spec crlf N buflen delim esc gasB gas fuel cs wl t res :
+    4 <= N -> buflen <= MaxScanTokenSize -> full_rune delim = true -> runs_ok cs = true ->
+    2 * weight cs + 4 < fuelD ->
+    12 * (N + 6 * weight cs) + 6 < gasB -> 12 * (N + 6 * weight cs) + 6 < gas ->
+    a_edi_tokens crlf delim esc fuel (a_decode cp (concat cs), latch t) = Ok res ->
+    edi_tokens_rd _ drd crlf N buflen delim esc gasB gas fuel (dec_init, mkSrc cs wl t) = Ok res.
+  Proof.
+    intros HN Hbl Hd Hr HfD HgB Hg Ha.
+    apply (edi_tokens_rd_spec _ _ _ _ _ dok crlf N buflen delim esc gasB gas fuel _ _ _ res HN Hbl Hd
+             (dec_rep_init cs wl t Hr HfD)); [| |exact Ha]; unfold dec_wt, src_wt; cbn; lia.
+  Qed.
+End Encoded.
+
+(* Chunk invariance of the complete stacks: any two chunkings of the same bytes (each without 100
+   consecutive empty chunks), data with or after the error, any tail. *)
+Theorem stack_chunk_invariant_edi crlf N buflen delim esc gasB gas fuel cs cs' wl wl' t res :
+  4 <= N -> buflen <= MaxScanTokenSize -> full_rune delim = true ->
+  concat cs = concat cs' -> runs_ok cs = true -> runs_ok cs' = true ->
+  12 * (N + weight cs) + 6 < gasB -> 12 * (N + weight cs) + 6 < gas ->
+  12 * (N + weight cs') + 6 < gasB -> 12 * (N + weight cs') + 6 < gas ->
+  a_edi_tokens crlf delim esc fuel (concat cs, t) = Ok res ->
+  edi_tokens_rd source io_read crlf N buflen delim esc gasB gas fuel (mkSrc cs wl t) = Ok res /\
+  edi_tokens_rd source io_read crlf N buflen delim esc gasB gas fuel (mkSrc cs' wl' t) = Ok res.
+Proof.
+  intros HN Hbl Hd Hc Hr Hr' H1 H2 H3 H4 Ha. split.
+  - apply edi_stack_spec; assumption.
+  - apply edi_stack_spec; try assumption. rewrite <- Hc. exact Ha.
+Qed.
+
+Theorem stack_chunk_invariant_enc_lines cp fuelD N gas fuel cs cs' wl wl' t res
+  (Hcp : forall c, 1 <= length (cp c) <= 3) :
+  4 <= N -> concat cs = concat cs' -> runs_ok cs = true -> runs_ok cs' = true ->
+  2 * weight cs + 4 < fuelD -> 2 * weight cs' + 4 < fuelD ->
+  6 * weight cs + 1 < gas -> 6 * weight cs' + 1 < gas ->
+  a_bom_lines N fuel (a_decode cp (concat cs), latch t) = Ok res ->
+  bom_lines_rd _ (dec_rd cp 4096 source io_read fuelD) N gas fuel (dec_init, mkSrc cs wl t) = Ok res /\
+  bom_lines_rd _ (dec_rd cp 4096 source io_read fuelD) N gas fuel (dec_init, mkSrc cs' wl' t) = Ok res.
+Proof.
+  intros HN Hc Hr Hr' H1 H2 H3 H4 Ha. split.
+  - apply (lines_stack_enc_spec cp Hcp); assumption.
+  - apply (lines_stack_enc_spec cp Hcp); try assumption. rewrite <- Hc. exact Ha.
+Qed.
+
+Theorem stack_chunk_invariant_enc_edi cp fuelD crlf N buflen delim esc gasB gas fuel cs cs' wl wl' t res
+  (Hcp : forall c, 1 <= length (cp c) <= 3) :
+  4 <= N -> buflen <= MaxScanTokenSize -> full_rune delim = true ->
+  concat cs = concat cs' -> runs_ok cs = true -> runs_ok cs' = true ->
+  2 * weight cs + 4 < fuelD -> 2 * weight cs' + 4 < fuelD ->
+  12 * (N + 6 * weight cs) + 6 < gasB -> 12 * (N + 6 * weight cs) + 6 < gas ->
+  12 * (N + 6 * weight cs') + 6 < gasB -> 12 * (N + 6 * weight cs') + 6 < gas ->
+  a_edi_tokens crlf delim esc fuel (a_decode cp (concat cs), latch t) = Ok res ->
+  edi_tokens_rd _ (dec_rd cp 4096 source io_read fuelD) crlf N buflen delim esc gasB gas fuel (dec_init, mkSrc cs wl t) = Ok res /\
+  edi_tokens_rd _ (dec_rd cp 4096 source io_read fuelD) crlf N buflen delim esc gasB gas fuel (dec_init, mkSrc cs' wl' t) = Ok res.
+Proof.
+  intros HN Hbl Hd Hc Hr Hr' H1 H2 H3 H4 H5 H6 Ha. split.
+  - apply (edi_stack_enc_spec cp Hcp); assumption.
+  - apply (edi_stack_enc_spec cp Hcp); try assumption. rewrite <- Hc. exact Ha.
+Qed.
